@@ -377,7 +377,7 @@ CHECKS = {
         "filters": ["c13_"],
         "quick": {"harnesses": [("real", "c13_one_q*"), ("real", "c13_two_q*")], "jobs": 14, "timeout": 1500},
         "thorough": {"harnesses": [("real", "c13_one_q*"), ("real", "c13_two_*")], "jobs": 16, "timeout": 3000},
-        "rule": ("case = one script of 1 or 2 calls over [create a, append a None / future / last (no-op) / older (Past) / empty batch / batch of 2, truncate a first / future, "
+        "rule": ("non-trivial = the script contains a rejected / no-op call or makes GC reclaim a file, or >= 2 effective calls. case = one script of 1 or 2 calls over [create a, append a None / future / last (no-op) / older (Past) / empty batch / batch of 2, truncate a first / future, "
                  "create bq, append bq]; after every call the cursor, the outcome and all observables are compared with the model; counted from the symex log"),
         "samples": ["c13_one_q_004: script 4 of 11: append(Some(last-1)) -> Past, cursor unchanged", "c13_one_q_005: empty batch -> Ok(None, 0 bytes)",
                     "c13_two_q_012: script 45 of 121: append(Some(last)) [no-op] followed by append(Some(next+2))"],
@@ -403,7 +403,7 @@ CHECKS = {
         "filters": ["c14_", "c13_one"],
         "quick": {"harnesses": [("real", "c14_pol*_q*"), ("real", "c13_one_q_00[0-2]")], "jobs": 14, "timeout": 1500},
         "thorough": {"harnesses": [("real", "c14_*"), ("real", "c13_one_q_0*")], "jobs": 16, "timeout": 3000},
-        "rule": "case = (persist policy, one call); counted from the symex log",
+        "rule": "case = (persist policy, one call); non-trivial = the call is a rejected / no-op call or makes GC reclaim a file; counted from the symex log",
         "samples": ["c14_pol1_q_001: DoNothing, append(None) on queue a", "c14_pol2_q_007: Always(FlushAndFsync), truncate(first) with GC"],
         "functions": ["persist_policy::{PersistPolicy -> PersistState, PersistState::should_persist, update_persisted}", "multi_record_log::MultiRecordLog::{persist_on_policy, persist, create_queue, append_records, truncate, delete_queue}",
                       "rolling::directory::RollingWriter::persist", "std::io::BufWriter::{write_all, flush}"],
